@@ -67,7 +67,7 @@ CHECKS = {
             'The default search range uvw=3 (sorting 216 symbolic norms) is outside the bound.', 'Known finding (pinned): rows/columns mix-up in the final a_to_cell step, both modules.', '6/C18'),
     'C06': ('path exploration of the real genhkl_base/genhkl_unique/genhkl_all on a symbolic reciprocal metric of the Laue family and a symbolic shell (sintl through its C01 summary, comparisons on squares => linear real arithmetic for concrete integer hkl); loops unrolled under a cube precondition; set-equality obligations per leaf decided by z3 (QF_LRA)',
             'Bounded model checking: 14 Laue classes/settings (symmorphic representative), lattice cube |h|_inf <= 2 (1 for mmm, 2/m, -1 and the rhombohedral settings), every metric of the stated diagonally dominant region, every shell: genhkl_all lists exactly the in-shell allowed box points once, '
-            'genhkl_unique one per Laue family; about 2700 paths in the quick tier (the triclinic class stops at its path budget and is reported non-exhaustive).', 'Ordering of the rows is not decided here (argsort in membership mode); reflection conditions are C05.', '6/C05-C06'),
+            'genhkl_unique one per Laue family; about 2700 paths in the quick tier (the triclinic class stops at its path budget and is reported non-exhaustive).', 'Ordering of the rows by sin(theta)/lambda is decided for the cubic classes (thorough: also 4/mmm, 6/mmm) with argsort as a merge sort whose comparisons are path decisions; elsewhere argsort is in membership mode. Reflection conditions are C05.', '6/C05-C06'),
 }
 NA_REASON = {}
 
